@@ -617,7 +617,7 @@ def _check_points_and_weights(ctx, fi):
                 and wt[3][0][2] == ():
             src_w = wt[3][0][1]
         elif wt[0] == "op" and wt[1] == "Mult" and coef in wt[2]:
-            src_w = [x for x in wt[2] if x != coef][0]
+            src_w = R_strip([x for x in wt[2] if x != coef][0])        # np.asarray(weights) * coefficient: the whole array scaled
         else:
             problems.append("the combined weights %s are not (component weights) * %s.coefficient" % (show(wt), elem))
         # both come from the same per-component call on elem.levelvector
